@@ -7,3 +7,9 @@ pub use ordering_sender::OrderingSender;
 pub use unordered_receiver::{
     DeserializeError, EndOfStreamError, Error as UnorderedReceiverError, UnorderedReceiver,
 };
+
+// Verification hook (guard: `--cfg ipa_verif`, test builds only). Compiled out unless the guard is set.
+#[cfg(all(test, ipa_verif))]
+pub(crate) mod ipa_verif_h2 {
+    include!(concat!(env!("IPA_VERIF_DIR"), "/h2_buffers.rs"));
+}
